@@ -2,7 +2,7 @@
 import json
 import vlib
 
-FAMILIES = ["flags", "names", "addr", "opt", "https", "decodeonly", "sections", "big", "pad"]
+FAMILIES = ["flags", "names", "addr", "opt", "https", "httpsx", "decodeonly", "sections", "big", "pad"]
 
 
 def wire_cases(ctx, families):
